@@ -5,6 +5,7 @@ import Mathlib.Data.Real.Basic
   definition serves `Float` and `ℝ`. Over ℝ they are the expected rationals.
 -/
 namespace HmcVerif
+theorem lit_zero : (0.0 : ℝ) = 0 := by norm_num
 theorem lit_half : (0.5 : ℝ) = 1 / 2 := by norm_num
 theorem lit_one : (1.0 : ℝ) = 1 := by norm_num
 theorem lit_two : (2.0 : ℝ) = 2 := by norm_num
